@@ -54,4 +54,26 @@ theorem Position_ROOKS_eq :
   decide +kernel
 #print axioms Position_ROOKS_eq
 
+/-- `Position::new_assert`, for rows and columns in `-16..=16`: on the board it builds the pair; off the board the
+`assert!` fails (a panic in Rust, `default` in `RustSem.assert`), i.e. the assertion is exactly `Pos.inBoard`. -/
+theorem Position_new_assert_eq : ∀ r : Int8, -16 ≤ r.toInt → r.toInt ≤ 16 → ∀ c : Int8, -16 ≤ c.toInt → c.toInt ≤ 16 →
+    (Pos.inBoard r.toInt c.toInt = true → toPos (Gen.Fns.Position.new_assert r c) = ⟨r.toInt, c.toInt⟩)
+    ∧ (Pos.inBoard r.toInt c.toInt = false → Gen.Fns.Position.new_assert r c = default) := by
+  refine forall_i8 (-16) 16 ?_; intro r hr; refine forall_i8 (-16) 16 ?_; revert r
+  decide +kernel
+#print axioms Position_new_assert_eq
+
+/-- `Position::add_unsafe` (release: the `debug_assert!` is a no-op), for a valid position and deltas in `-2..=2`
+(its callers pass the pawn steps `(±1, 0)`, `(±2, 0)`): the `i8` sums do not wrap there and are the model's. -/
+theorem Position_add_unsafe_eq : ∀ p : Gen.Fns.Position, PosValid p →
+    ∀ dr : Int8, -2 ≤ dr.toInt → dr.toInt ≤ 2 → ∀ dc : Int8, -2 ≤ dc.toInt → dc.toInt ≤ 2 →
+    toPos (Gen.Fns.Position.add_unsafe p (dr, dc)) = Pos.addUnsafe (toPos p) (dr.toInt, dc.toInt) := by
+  intro ⟨r, c⟩ ⟨h1, h2, h3, h4⟩ dr a1 a2 dc b1 b2
+  revert r c dr dc
+  suffices h : ∀ r ∈ i8s 0 7, ∀ c ∈ i8s 0 7, ∀ dr ∈ i8s (-2) 2, ∀ dc ∈ i8s (-2) 2,
+      toPos (Gen.Fns.Position.add_unsafe ⟨r, c⟩ (dr, dc)) = Pos.addUnsafe (toPos ⟨r, c⟩) (dr.toInt, dc.toInt) from
+    fun r c h1 h2 h3 h4 dr a1 a2 dc b1 b2 => h r (mem_i8s h1 h2) c (mem_i8s h3 h4) dr (mem_i8s a1 a2) dc (mem_i8s b1 b2)
+  decide +kernel
+#print axioms Position_add_unsafe_eq
+
 end Chess.FnsEquiv
